@@ -3,3 +3,8 @@ import SJ.Props.C12
 #print axioms SJ.Props.C12.c12_error_fails
 #print axioms SJ.Props.C12.c12_progress
 #print axioms SJ.Props.C12.runPrefix_eof_at_end
+#print axioms SJ.Props.C12.c12_values
+#print axioms SJ.Props.C12.c12_expected_at
+#print axioms SJ.Props.C12.c12_expected_end
+#print axioms SJ.Props.C12.c12_values_one
+#print axioms SJ.Props.C12.c12_values_canon
